@@ -306,7 +306,33 @@ func init() {
 			sweep(c, r, s, cl)
 		}
 
-		// ---- OP_RETURN ----------------------------------------------------
+		// ---- OP_RETURN and the conditional depth ---------------------------
+		c.Phase("opreturn-conditional-depth") // which OP_RETURN is at top level: every sequence of up to five of IF / NOTIF / ELSE / ENDIF / RETURN / a push, followed by OP_RETURN and a tail that is empty, complete instructions, or a dangling push header (unmatched ENDIFs, a RETURN inside a closed block, blocks reopened after going below zero)
+		{
+			alphabet := [][]byte{{0x63}, {0x64}, {0x67}, {0x68}, {0x6a}, {0x51}}
+			tails := [][]byte{nil, {0x51}, {0x4c}, {0x05, 0x01}, {0x01, 0x02, 0x03}}
+			n := uint64(0)
+			var rec func(prefix []byte, depth int)
+			rec = func(prefix []byte, depth int) {
+				for _, tl := range tails {
+					n++
+					if c.Case(n) {
+						script(c, &c13Script{Script: append(append(append([]byte{}, prefix...), 0x6a), tl...), Class: "opreturn-conditional-depth"})
+					}
+				}
+				if depth == 0 {
+					return
+				}
+				for _, a := range alphabet {
+					rec(append(append([]byte{}, prefix...), a...), depth-1)
+				}
+			}
+			d := 4
+			if c.Thorough {
+				d = 5
+			}
+			rec(nil, d)
+		}
 		c.Phase("opreturn")
 		nret := 600
 		if c.Thorough {
@@ -979,8 +1005,23 @@ func c13JudgeScript(c *mon.Ctx, in *c13Script) {
 			c.Violationf("C13:parse:accepts-truncated:"+form, "Parse(%s) returned no error although the push at offset %d is cut", c13Short(s), tr)
 		case !hasRet:
 			c.Count("trunc:parse-clause-judged")
+		case c13DataAfterTopLevelReturn(toks, s):
+			// the instructions in front of the cut are complete, their conditionals balanced, and an
+			// OP_RETURN outside every conditional precedes it: what follows is data, the script is
+			// well-formed, and Parse + Unparse give the bytes back
+			c.Count("parse:data-behind-a-top-level-opreturn")
+			var un *bscript.Script
+			var uerr error
+			if err != nil {
+				c.Violationf("C13:parse:rejects-well-formed", "Parse(%s) = %v; an OP_RETURN outside every (balanced) conditional precedes the bytes that do not tokenize: they are data", c13Short(s), err)
+			} else if c.Try("interpreter.(*DefaultOpcodeParser).Unparse", func() { un, uerr = parser.Unparse(parsed) }) {
+				if uerr != nil || un == nil || !bytes.Equal(*un, s) {
+					c.Violationf("C13:unparse:bytes-differ", "Unparse(Parse(%s)) returned different bytes (%v) for a script with data behind a top-level OP_RETURN", c13Short(s), uerr)
+				}
+			}
 		default:
-			// an OP_RETURN precedes the cut: the property makes no claim for this tokeniser
+			// an OP_RETURN precedes the cut, inside a conditional or behind unmatched ENDIFs: the
+			// property makes no claim for this tokeniser
 			c.Count("trunc:parse-after-opreturn-not-judged")
 			if err == nil {
 				var un *bscript.Script
@@ -1119,4 +1160,31 @@ func c13ASMClaim(s []byte, toks []refcodec.Token) bool {
 		}
 	}
 	return true
+}
+
+// c13DataAfterTopLevelReturn: toks are the complete instructions in front of the
+// first byte that does not tokenize. True when one of them is an OP_RETURN at
+// conditional depth 0 and the depth never went below zero before it (IF / NOTIF
+// open, ENDIF closes; with unmatched ENDIFs "top level" is not defined).
+func c13DataAfterTopLevelReturn(toks []refcodec.Token, s []byte) bool {
+	depth := 0
+	for _, t := range toks {
+		if t.Push {
+			continue
+		}
+		switch t.Op {
+		case 0x63, 0x64:
+			depth++
+		case 0x68:
+			depth--
+			if depth < 0 {
+				return false
+			}
+		case 0x6a:
+			if depth == 0 {
+				return true
+			}
+		}
+	}
+	return false
 }
